@@ -9,6 +9,7 @@ import MithrilModel.Properties.C03
   witness cache of `live_differs` does satisfy it in a binding world (`wCache_inv_on`).
 * joint instances for the theorems that had none.
 -/
+set_option autoImplicit false
 namespace Vacuity.C03
 open Chain
 
